@@ -475,7 +475,7 @@ pub fn property() -> Property {
         id: "C18",
         run,
         budget: |t| match t {
-            Tier::Quick => 2000,
+            Tier::Quick => 10000,
             Tier::Thorough => 200_000,
         },
         wall_cap_s: |t| match t {
